@@ -28,5 +28,10 @@ func (t TrimEnumValues) processEnum(_ *Visitor, _ *ast.Schema, def ast.Type) (as
 		}
 	}
 
+	// the default designates one of the members: it is written with the same spaces
+	if defaultValue, ok := def.Default.(string); ok {
+		def.Default = strings.TrimSpace(defaultValue)
+	}
+
 	return def, nil
 }
